@@ -16,6 +16,11 @@ let srows rows = String.concat " " (List.map srow rows)
 let shist h = String.concat "," (List.map (fun (t, s) -> sq t ^ "@" ^ sn s) h)
 let sassoc l = String.concat " " (List.map (fun (u, h) -> sn u ^ "=" ^ shist h) l)
 
+(* PS <obj> : the possible statuses (given, or those occurring in the histories), sorted *)
+let run_ps () =
+  let iv = read_inv () in
+  out ("OK " ^ String.concat "," (List.map string_of_int (List.sort_uniq compare (List.map int_of_n (possible_statuses iv)))));
+  out (" ORDER " ^ String.concat "," (List.map sn (possible_statuses iv)))
 let run_sum () = let iv = read_inv () in let nl = nopt (fun () -> nlist nn) in res srows (summary iv nl)
 let run_cols () =
   let iv = read_inv () in
@@ -61,6 +66,7 @@ let run_log () =
   res srows (summary (log_inv nodes ps tmin initf log) None)
 
 let () = main (function
+    | "PS" -> run_ps ()
     | "SUM" -> run_sum ()
     | "COLS" -> run_cols ()
     | "NST" -> run_nst ()
